@@ -10,7 +10,7 @@ from ..models import nametable as NT
 
 PROPERTY_ID = 'C13'
 LEVEL = 'exploration'
-RULE = ('histories on the real Bus with raw scripted clients (real handshake and Hello): RequestName with all 8 flag '
+RULE = ('On every second step the observer first asks GetConnectionUnixUser / NameHasOwner / ListNames about each name (answers ignored): read-only questions must change nothing. histories on the real Bus with raw scripted clients (real handshake and Hello): RequestName with all 8 flag '
         'combinations, ReleaseName, disconnect, connect, by up to 4 clients on up to 2 names; enum: every history of '
         'length <=3 (quick) / <=4 (thorough) over 3 clients x 1 name x {8 request flags, release, disconnect}, '
         'exhaustive; enum_q3: three requests by three clients with all 8^3 flag combinations followed by every single '
@@ -187,6 +187,12 @@ def run_history(case):
             # observable state after every step
             for name in NAMES[:case['nnames']]:
                 q = model.queue.get(name)
+                if (si + len(name)) % 2 == 0:
+                    # the bus's other questions about a name - who runs its owner, is it owned, what names are there -
+                    # change nothing, whatever they answer (asked before the two queries the model is compared with)
+                    for member, sig_, args in (('GetConnectionUnixUser', 's', [name]), ('NameHasOwner', 's', [name]),
+                                               ('ListNames', '', [])):
+                        obs.call_bus(member, sig_, args)
                 r = obs.call_bus('GetNameOwner', 's', [name])
                 if r is None:
                     out.append(Disc('owner.no-reply', where))
